@@ -59,6 +59,14 @@ type ReplayFile struct {
 
 const verifDir = "/verif"
 
+// outDir: where evidence and replay files go (the selftest redirects it away from /verif)
+var outDir = func() string {
+	if d := os.Getenv("GOVC_OUT"); d != "" {
+		return d
+	}
+	return verifDir
+}()
+
 func loadProps() map[string]*PropConf {
 	data, err := os.ReadFile(filepath.Join(verifDir, "props.json"))
 	if err != nil {
@@ -104,7 +112,7 @@ func cmdCheck(args []string) {
 		fmt.Fprintf(os.Stderr, "property %s is not configured\n", *prop)
 		os.Exit(2)
 	}
-	e, err := loadEngine("/repo", pc.Packages, filepath.Join(verifDir, "contracts"), filepath.Join(verifDir, "extern"))
+	e, err := loadEngine(repoDir, pc.Packages, filepath.Join(verifDir, "contracts"), filepath.Join(verifDir, "extern"))
 	if err != nil {
 		fmt.Fprintf(os.Stderr, "cannot load /repo (exit 2: the check could not run): %v\n", err)
 		os.Exit(2)
@@ -150,7 +158,7 @@ func cmdCheck(args []string) {
 		}
 		return nil
 	}
-	replayDir := filepath.Join(verifDir, "replays", *prop)
+	replayDir := filepath.Join(outDir, "replays", *prop)
 	os.RemoveAll(replayDir)
 	total, discharged := 0, 0
 	bySolver := map[string]int{}
@@ -318,9 +326,9 @@ func cmdCheck(args []string) {
 			"explanation":  "every obligation is a verification condition generated from the current source of /repo and discharged (unsat of path condition and negated goal) by an SMT solver; integers are modelled exactly (mathematical Int with Go wrap-around), memory as typed heaps",
 		},
 	}
-	os.MkdirAll(filepath.Join(verifDir, "evidence"), 0o755)
+	os.MkdirAll(filepath.Join(outDir, "evidence"), 0o755)
 	data, _ := json.MarshalIndent(ev, "", " ")
-	os.WriteFile(filepath.Join(verifDir, "evidence", *prop+".json"), data, 0o644)
+	os.WriteFile(filepath.Join(outDir, "evidence", *prop+".json"), data, 0o644)
 	fmt.Printf("property %s [%s]: %d obligations, %d discharged, %d known findings, %d violations, %d functions, %.1fs\n",
 		*prop, *tier, total, discharged, len(knownHit), len(violations), len(funcs), time.Since(start).Seconds())
 	for _, v := range violations {
